@@ -94,3 +94,6 @@ META = {
              "declaration (TL-B: Either T ^U loses the ^, Maybe inside Either/^ loses the tag): recorded as observations."),
     'technique': 'random schema generation + real generators + go build + proved checker by vm_compute per generated program + extracted-model correspondence with the schema as data',
 }
+
+# ROUND-8-APPEND
+PROP['rule'] += ' ROUND 8: two fixed TL-B programs `tlbdicts` (HashmapE, inside the full pipeline) and `tlbhm` (the non-empty Hashmap) cross both dictionaries with UintN/BitsN key widths and every value form (builtin, declared, ^declared, ^builtin, ^Cell, Coins, VarUInteger, ^VarUInteger, Either, Either T ^T, ^Either, ^[ ... ], dictionary, ^dictionary, 6 random plain types with/without ^) and put dictionaries under Maybe, Maybe ^, ^, Either (both sides), Either X ^X, in union constructors and in ^[ ... ]; for EVERY subset TL-B program the compiled driver lists the dictionary-typed positions of each generated Go type by reflection (tlx.TlbDicts: base Hashmap/HashmapE, key type, descriptor of the VALUE type) and the harness lists those of the declaration: same count (fixed programs), same base and key type (c09-tlb-dict-shape), and coqc evaluates tlb_check (meaning of the declared value type) (descriptor of the Go value type) by vm_compute in <work>/C09TlbDict.v (theorem C09_run_every_dictionary_value_type_checks; failures c09-tlb-dict-value; classes c09.tlbdict|Hashmap(E)|value-inline/ref|checked) - so a leaf holds its value inline or in a reference exactly as declared, which the opaque-cell model of dictionary bodies did not see. TL programs `tlnames*` (1 quick / 6 thorough): subset schemas whose constructor, type, field, conditional-field, function and namespace names are drawn from the whole identifier class of the lexer (trailing `_`, `__`, digit after `_`, upper case inside, dotted namespaces of such parts; the flags field stays `mode`), through the whole pipeline; a generator/parse error on them is a violation (c09-tl-generate).'
